@@ -34,6 +34,7 @@ theorem c15_au_total (bitrate : Nat) (bytes : List Nat) :
   split; · left; exact ⟨_, rfl⟩
   split; · right; left; rfl
   simp only []
+  split; · right; left; rfl
   split; · left; exact ⟨_, rfl⟩
   split; · right; left; rfl
   split; · left; exact ⟨_, rfl⟩
